@@ -21,6 +21,11 @@ def sym(name, args):
 def m_noodles(I, a, t, c):
     name = c.name or ''
     short = name.split('noodles_vcf::')[-1]
+    if name.endswith('>::eq') or name.endswith('>::ne') or name in ('std::cmp::PartialEq::eq', 'std::cmp::PartialEq::ne'):
+        r = _deref(I, a[0]) == _deref(I, a[1])
+        return M.bv_bool(r if name.endswith('eq') else not r)
+    if name.endswith('>::clone') or name == 'std::clone::Clone::clone':
+        return _deref(I, a[0])
     if short.endswith('Writer::write_header') or short.endswith('Writer::<W>::write_header'):
         if not hasattr(I, 'vcf_out'):
             I.vcf_out = []
@@ -38,7 +43,6 @@ def m_noodles(I, a, t, c):
     return sym(short, a)
 
 
-M.SUFFIX_PREFIX_MODELS = getattr(M, 'SUFFIX_PREFIX_MODELS', {})
 M.SUFFIX_PREFIX_MODELS['noodles_vcf::'] = m_noodles
 
 
